@@ -23,6 +23,8 @@ enum Kind {
     Plain,
     Archival,
     Trusted,
+    /// marked archival (`PeerTracker::mark_as_archival`) without ever having had a connection
+    ArchivalMarked,
 }
 
 impl Kind {
@@ -31,6 +33,7 @@ impl Kind {
             Kind::Plain => "plain",
             Kind::Archival => "archival",
             Kind::Trusted => "trusted",
+            Kind::ArchivalMarked => "archival-never-connected",
         }
     }
     fn from_name(s: &str) -> Kind {
@@ -38,6 +41,7 @@ impl Kind {
             "plain" => Kind::Plain,
             "archival" => Kind::Archival,
             "trusted" => Kind::Trusted,
+            "archival-never-connected" => Kind::ArchivalMarked,
             o => panic!("bad peer kind {o}"),
         }
     }
@@ -136,7 +140,12 @@ impl Run {
     fn new(pop: &Pop) -> Run {
         let mut sys = Sys::new();
         for (k, conn) in pop {
-            let i = sys.add_peer(*k == Kind::Trusted, *k == Kind::Archival);
+            let i = sys.add_peer(*k == Kind::Trusted, matches!(k, Kind::Archival | Kind::ArchivalMarked));
+            if *k == Kind::ArchivalMarked {
+                // the flag is set on a peer id that has no connection (Node::mark_as_archival)
+                let peer = sys.peers[i].peer;
+                sys.client.mark_as_archival(peer);
+            }
             if *conn {
                 sys.connect(i);
             }
@@ -488,6 +497,7 @@ fn populations(per_peer_flags: bool) -> Vec<Pop> {
             opts.push((k, false));
         }
     }
+    opts.push((Kind::ArchivalMarked, false));
     let mut out: Vec<Pop> = vec![vec![]];
     // multisets of size 1..=3 over opts
     for n in 1..=3usize {
@@ -513,6 +523,8 @@ fn populations(per_peer_flags: bool) -> Vec<Pop> {
         let disc: Vec<Pop> = out.iter().filter(|p| !p.is_empty()).map(|p| p.iter().map(|(k, _)| (*k, false)).collect()).collect();
         out.extend(disc);
     }
+    out.sort();
+    out.dedup();
     out.sort_by_key(|p| p.len());
     out
 }
@@ -599,7 +611,7 @@ fn main() {
         &ctx,
         rep,
         Spec {
-            rule: "populations: every multiset of 0..=3 peers over kinds {plain, archival, trusted} (quick: all initially connected, and all initially disconnected; thorough: connected/disconnected chosen per peer) x every event sequence of <= 10 (quick) / 14 (thorough) events with <= 3 / 4 non-default choices; events: answer any outstanding send with {valid, NotFound, valid header of the wrong height, outbound failure}, schedule tick (100 ms, schedule runs iff the handler emitted SchedulePendingRequests), second request (range of 2), connect/disconnect any peer, caller drops its receiver, stop; default = honest environment; every execution ends with a fair tail (<= 8 rounds of valid answers + ticks). state = distinct observation trace (events, per-send attempt number / connected / archival, answers); an execution is one trace validated on the real handler; non-trivial = executions with at least one non-default choice",
+            rule: "populations: every multiset of 0..=3 peers over kinds {plain, archival, trusted, archival-never-connected = marked archival without any connection, initially disconnected} (quick: all initially connected, and all initially disconnected; thorough: connected/disconnected chosen per peer) x every event sequence of <= 10 (quick) / 14 (thorough) events with <= 3 / 4 non-default choices; events: answer any outstanding send with {valid, NotFound, valid header of the wrong height, outbound failure}, schedule tick (100 ms, schedule runs iff the handler emitted SchedulePendingRequests), second request (range of 2), connect/disconnect any peer, caller drops its receiver, stop; default = honest environment; every execution ends with a fair tail (<= 8 rounds of valid answers + ticks). state = distinct observation trace (events, per-send attempt number / connected / archival, answers); an execution is one trace validated on the real handler; non-trivial = executions with at least one non-default choice",
             assumptions: &[
                 "peer choice among eligible peers is random (thread_rng shuffle): the oracle only uses connected/archival of the chosen peer at send time, the observation key never contains peer identities",
                 "a disconnect does not by itself fail the peer's outstanding sends (libp2p would report ConnectionClosed): both events are in the alphabet separately, which is a superset",
